@@ -2,4 +2,4 @@ From Coq Require Import Extraction ExtrOcamlBasic List NArith ZArith.
 From BioVerif Require Import Lib.Conv Model.UpdateSender Spec.UpdateSenderSpec.
 Extraction Language OCaml.
 Extraction "c18_model.ml" conv_anchor pack budget reserved length_est enc_attrs overhead msg_total msg_ok
-  nlri_len batch_wire announced.
+  nlri_len batch_wire announced init step pkey quiescent.
